@@ -137,7 +137,7 @@ def check_spec(spec: NetSpec, label, st: Stats, plan):
                 problems.append((sig, f"{sym} compact={compact}, spare keyword arguments {sorted(SPARE)}: {msg} at {vlabel}",
                                  dict(case, val={f"{k[0]}.{k[1]}": v for k, v in val.items()})))
     # the same network reached by editing another, already stepped network in place (non-initial state)
-    for emode in ("links", "attachments", "replace"):
+    for emode in ("links", "attachments", "replace", "params"):
         sym, compact = plan["variants"][0]
         st.inc("transitions", 4)
         case = {"spec": spec.describe(), "config": label, "P": P, "sym": sym, "compact": compact, "opts": False, "edited": emode}
